@@ -45,7 +45,6 @@ StrLenRuleSets ==
      {<<R("minLength", NV(a))>> \o n : a \in {N0, N1, N2, N3}, n \in NullableOpts}
 \cup {<<R("maxLength", NV(a))>> \o n : a \in {N0, N1, N2, N3}, n \in NullableOpts}
 \cup {<<R("minLength", NV(p[1])), R("maxLength", NV(p[2]))>> : p \in {q \in {N0, N1, N2, N3} \X {N0, N1, N2, N3} : LessEq(q[1], q[2])}}
-\cup {<<R("maxLength", NV(NBig))>>, <<R("minLength", NV(N1)), R("maxLength", NV(NBig))>>}     \* a bound beyond 64 bits bounds nothing
 StrExamples == {Sempty, Sa, Sab, Sabc, Sabcd, Sb, Sac, Sxaby}
 Chr(c) == [t |-> "chr", c |-> c]
 Cat(a, b) == [t |-> "cat", a |-> a, b |-> b]
@@ -87,6 +86,8 @@ Confusable == { <<NumD(N1), StrD(S1)>>, <<BoolD(TRUE), StrD(<<116, 114, 117, 101
 CE(x, p) == {Lit(x, <<R("const", BV(TRUE)), R("enum", [t |-> "list", items |-> <<EV(p[1]), EV(p[2])>>])>>),
              Lit(x, <<R("enum", [t |-> "list", items |-> <<EV(p[2]), EV(p[1])>>]), R("const", BV(TRUE))>>)}
 ConstEnumSchemas == UNION {CE(p[1], p) \cup CE(p[2], p) : p \in Confusable}
+\* a bound beyond 64 bits bounds nothing (an implementation may refuse it; it must not read it as another number): GenRules only
+BigSchemas == {Lit(StrD(e), rs) : e \in {Sa, Sabcd}, rs \in {<<R("maxLength", NV(NBig))>>, <<R("minLength", NV(N1)), R("maxLength", NV(NBig))>>}}
 Schemas == ConstEnumSchemas \cup NumSchemas \cup DecSchemas \cup StrSchemas \cup FmtSchemas \cup EnumSchemas \cup ConstSchemas \cup PlainTypes
 
 ===================================================================================
